@@ -51,7 +51,7 @@ def selOf (T : Tables) (fuel : Nat) (name : Bytes) (params : List Param) : ESel 
 theorem isPL_fun : (fun p : Param => match p with | .path _ => true | .logic _ => true | _ => false) = isPL := by
   funext p; cases p <;> rfl
 
-theorem elabPart_func (T : Tables) (fuel : Nat) (i : Bool) (n : Bytes) (ps : List Param) (us : Bytes) :
+theorem elabPart_func_sel (T : Tables) (fuel : Nat) (i : Bool) (n : Bytes) (ps : List Param) (us : Bytes) :
     elabPart T fuel (.func i n ps us) = .func n (elabParams T fuel ps) (selOf T fuel n ps) := by
   unfold elabPart selOf; rfl
 
@@ -103,7 +103,7 @@ theorem elab_erPart (T : Tables) (fuel : Nat) (p : PathPart) : elabPart T fuel (
   | filter lo us => unfold erPart elabPart; rw [elab_erLogic T fuel lo]
   | func i n ps us =>
     unfold erPart
-    rw [elabPart_func, elabPart_func, elab_erParams T fuel ps, selOf_er]
+    rw [elabPart_func_sel, elabPart_func_sel, elab_erParams T fuel ps, selOf_er]
 termination_by structural p
 theorem elab_erParams (T : Tables) (fuel : Nat) (ps : List Param) : elabParams T fuel (erParams ps) = elabParams T fuel ps := by
   cases ps with
